@@ -245,6 +245,12 @@ func runC07(c *Ctx) {
 	storeDestroyGuard(c, "R07.9")
 
 	_ = running
+
+	// ---------- R07.10 a finalizer that could not be added is an error
+	c.Rule("R07.10", "E1", "StateAdapter.AddFinalizer: an error of the state's AddFinalizer (NotFound included) reaches the controller — a controller never believes it holds a finalizer it does not hold", 1)
+
+	c.errPropagates("R07.10", p.Method(pkgCtrlState, "StateAdapter", "AddFinalizer"), 1, "(*pkg/state/owned.State).AddFinalizer")
+
 }
 
 // storeDestroyGuard: in ResourceCollection.Destroy, delete(storage) / backing-store Destroy /
